@@ -25,7 +25,8 @@ OneByteOps == {1, 3, 4, 5, 6, 7, 8, 10, 11, 14, 15, 16, 18, 19, 20, 21, 22, 23, 
 OpBytes == {<<b>> : b \in OneByteOps} \cup {<<12, b>> : b \in {34, 35, 36, 37}} \cup {<<0>>, <<2>>, <<9>>, <<13>>, <<17>>, <<12, 0>>, <<12, 33>>, <<12>>}
 WidthRead == Num(1) \o Num(2) \o <<21>>          \* an rmoveto with exactly two operands: the width is considered read afterwards
 Tail1 == Num(5) \o <<22>>                        \* a trailing hmoveto makes the state after the operator visible
-P(main, g, l, hl) == [main |-> main, g |-> g, l |-> l, hl |-> hl]
+P(main, g, l, hl) == [main |-> main, g |-> g, l |-> l, hl |-> hl, bk |-> <<>>]
+PB(main, bk) == [main |-> main, g |-> <<>>, l |-> <<>>, hl |-> FALSE, bk |-> bk]
 NoSubrs(main) == P(main, <<>>, <<>>, FALSE)
 
 \* every operator after 0..14 operands, with and without the width already read (mask operators get two mask bytes)
@@ -69,23 +70,34 @@ Pattern(k, a, b) == Concat([i \in 1..k |-> IF i % 2 = 1 THEN a ELSE b])
 Extreme == {NoSubrs(Pattern(k, a, b) \o op \o (IF op \in {<<19>>, <<20>>} THEN <<170, 85>> ELSE <<>>) \o Pattern(k2, b, a) \o op2 \o Tail1) :
               k \in 1..13, k2 \in {1, 2, 6}, a \in {FMAX, FMIN, IMAX}, b \in {FMAX, FMIN, FMIN1, IMIN}, op \in OpBytes, op2 \in {<<21>>, <<12, 37>>, <<31>>}}
 
-ProgramsQuick == Arity \cup Stale \cup Numbers \cup Masks \cup Calls
+ExtremeBlends == {PB(Pattern(k, a, b) \o cnt \o <<16>> \o Tail1, <<2, 1>>) :
+                    k \in 0..7, a \in {FMAX, FMIN, IMAX, Num(1)}, b \in {FMAX, FMIN, IMIN}, cnt \in {Num(-1), Num(-2), IMIN, IMAX, Num(1), Num(2), <<28, 85, 86>>}}
+\* CFF2 blend / vsindex with a blend state of two subtables (2 regions and 1 region): counts from -2 to more than the stack
+\* holds, too few operands, operands left below the blend, a fixed-point count, subtable switches incl. invalid indices
+BK == <<2, 1>>
+Blends == {PB(Nums(k, 1) \o Num(cnt) \o <<16>> \o tail, BK) : k \in 0..8, cnt \in {-2, -1, 0, 1, 2, 3, 9}, tail \in {<<5>>, Tail1, <<16>> \o Tail1}}
+          \cup {PB(Num(v) \o <<15>> \o Nums(k, 1) \o Num(cnt) \o <<16>> \o <<5>>, BK) : v \in {-1, 0, 1, 2, 300}, k \in {2, 3, 4}, cnt \in {1, 2}}
+          \cup {PB(Nums(3, 1) \o <<255, 0, 1, 0, 0, 16>> \o <<5>>, BK), PB(<<16>> \o Tail1, BK), PB(<<15>> \o Tail1, BK),
+                PB(<<255, 0, 0, 0, 0, 15>> \o Tail1, BK)}
+
+ExtremeAll == Extreme \cup ExtremeBlends
+ProgramsQuick == Arity \cup Blends \cup Stale \cup Numbers \cup Masks \cup Calls
 ProgramsThorough == ProgramsQuick \cup Deep
 
 vars == <<st, n>>
-Init == \E p \in Family : st = Start(p.main, p.g, p.l, p.hl) /\ n = 0
+Init == \E p \in Family : st = Start5(p.main, p.g, p.l, p.hl, p.bk) /\ n = 0
 Next == st.status = "run" /\ st' = Step(st) /\ n' = n + 1
 Spec == Init /\ [][Next]_vars
 
 \* enumeration only (no evaluation): for families outside the exact range of the model
 SpecEnum == Init /\ [][UNCHANGED vars]_vars
-EnumDump == PrintT(<<"CASE", ToJson([main |-> st.main, g |-> st.gsubrs, l |-> st.lsubrs, hl |-> st.haveLocal,
+EnumDump == PrintT(<<"CASE", ToJson([main |-> st.main, g |-> st.gsubrs, l |-> st.lsubrs, hl |-> st.haveLocal, bk |-> st.blendK,
                                      status |-> "unknown", why |-> "", cmds |-> <<>>])>>)
 
 BoundsOK == Bounded(st)
 Halts == n <= StepBudget                                        \* every program of the family halts within the budget
 ErrorsAreNamed == st.status = "err" => st.why # ""
 CaseDump == st.status # "run" =>
-  PrintT(<<"CASE", ToJson([main |-> st.main, g |-> st.gsubrs, l |-> st.lsubrs, hl |-> st.haveLocal,
+  PrintT(<<"CASE", ToJson([main |-> st.main, g |-> st.gsubrs, l |-> st.lsubrs, hl |-> st.haveLocal, bk |-> st.blendK,
                            status |-> st.status, why |-> st.why, cmds |-> st.cmds])>>)
 =============================================================================
